@@ -98,7 +98,7 @@ def run(tier, seed):
     for f in (["full", "mr", "comp"] if thorough else ["full"]):
         cases.append({"id": f"rebuild_{f}", "setup": setup + [{"op": "checkpoint", "t": 0, "to_msg": 0},
                                                               {"op": "fault", "t": 0, "file": f, "kind": "delete"}, {"op": "restart"}],
-                      "op": {"op": "cut_points", "t": 0, "stride": 1, "limit": 4}, "post": post})
+                      "op": ({"op": "replay", "t": 0} if f == "full" else {"op": "cut_points", "t": 0, "stride": 1, "limit": 4}), "post": post})
     if thorough:
         # longer prefixes and second-generation threads
         su2 = setup + [{"op": "branch", "t": 0}, {"op": "message", "t": 1}, {"op": "auto", "t": 0, "stride": 1, "max_new": 2}]
@@ -148,7 +148,10 @@ def run(tier, seed):
                     # the truth log is ahead of the full sidecar at the crash point, and the as-implemented model
                     # (not the repaired one) predicts exactly this crash class to fail
                     key = "D1-nextseq-from-stale-sidecar"
-                if kind in ("acked", "unusable") and lag["full"] >= 1 and cls in d1_classes and "does not exist" not in what:
+                if kind == "acked" and lag["full"] >= 1 and cls in d1_classes and "does not exist" not in what:
+                    key = "D1-nextseq-from-stale-sidecar"
+                if kind == "unusable" and lag["full"] >= 1 and cls in d1_classes and ("replay_all fails" in what or "sequence mismatch" in what):
+                    # consequence of the duplicate seq of D1: validated replay of the whole store fails; an APPEND that is refused is something else
                     key = "D1-nextseq-from-stale-sidecar"
                 v.violation(f"crash at {pt['point']} (#{pt['k']}, class {cls}) of {res['id']}: {what}", rep, key=key)
             for phase in ("cache_diffs", "cache_diffs_after_post"):
